@@ -480,6 +480,19 @@ def check(ctx):
     # a keyword naming a described field overrides it like an assignment (C17-d)
     from .c17 import check_constructor
     _attempt(ctx, check_constructor)
+    # ... which needs the hidden flag slot of every described field to exist (C17-b): a missing slot
+    # raises AttributeError inside the constructor, where it is taken for "no such keyword"
+    from .c17 import check_slots
+    _attempt(ctx, check_slots)
+    # "pack() of the result is the encoding of those values": a described field left automatic is
+    # computed by its before-pack hook, which every pack driver runs for every hook (C17-c)
+    from .. import drivers as D
+
+    def hooks_(ctx):
+        for d in D.get_drivers(ctx.repo):
+            if d.kind == 'pack':
+                D.check_hooks_order(ctx, 'R13-hooks', d)
+    _attempt(ctx, hooks_)
     from .c13 import check_freshness
     _attempt(ctx, check_freshness)
     ctx.floor('obligations', len(ctx.obs), 40)
